@@ -24,7 +24,7 @@ PROBES = ['state_compressed_gt57', 'cookie_b64_gt76', 'token_compressed_gt57',
           'astral_id', 'int_id', 'same_id_in_two_subtrees', 'stale_undefined',
           'assume_children_leaf_expanded', 'codec_case', 'depth_ge_4',
           'two_expanded_siblings', 'state_json_gt32k',
-          'leaf_without_branches_method', 'foreign_cookie']
+          'leaf_without_branches_method', 'foreign_cookie', 'falsy_id']
 RULE = ('seeded trees (1..40 nodes, about one in a hundred with 400-600 nodes '
         'and 30-character non-ASCII ids; sometimes ids that collide when joined with "/"; depth <= 6, ids of 1..30 chars over '
         'ASCII / Latin-1 / BMP / astral alphabets or ints, ids unique among '
@@ -116,7 +116,9 @@ class Response:
 def gen_id(r, used, long=False):
     while True:
         how = r.random()
-        if how < 0.12 and not long:
+        if how < 0.02 and not long:
+            tid = r.choice([0, ''])          # valid ids that are falsy
+        elif how < 0.12 and not long:
             tid = r.randint(0, 3000)
         else:
             al = ALPH[r.choice(['bmp', 'astral'] if long else
@@ -425,6 +427,8 @@ def run_case(case):
         if depth >= 4:
             probe('depth_ge_4')
         t = n.tid
+        if not t and n is not root:
+            probe('falsy_id')
         if isinstance(t, int):
             probe('int_id')
         elif any(ord(ch) > 0xffff for ch in t):
